@@ -6,18 +6,22 @@
    parser by the harness).  Proofs: Proofs/EvalProofs.v, EvalFuncProofs.v, EvalMainProofs.v.
 
    EVALUATION half (this file): for every expression tree the walker computes what the Spec says.
-   SYNTAX half (text -> tree: precedence, associativity, parentheses, unary minus, literals):
-   theorems of the parser/lexer models on branches wt-astprint / wt-lex when merged; until then it
-   is covered by the end-to-end oracle of go/cmd/soyverif/c01.go (expected output from the Spec on
-   the generator's TREE, and the parser's tree compared with to_node).
+   SYNTAX half, token level (merged from wt-astprint): parse_show of Proofs/ExprParserProofs.v --
+   the model of parse.go's precedence-climbing parser reads the tokens of any well-formed tree,
+   written with the parentheses the operator table requires plus any redundant ones, back as that
+   tree -- cited below and composed with the evaluation half (C01_text_to_value).  Character level
+   (lexer: unary-minus classification, number and string scanning) and the statement-level
+   positions: no theorem yet (lexer model on wt-lex); covered by the end-to-end oracle of
+   go/cmd/soyverif/c01.go (expected output from the Spec on the generator's TREE; the parser's tree
+   compared with to_node).
 
    Value laws the statement names (truthiness table, equality by kind, Int/Float numerically,
    collections by identity): Properties/C20.v (C20_truthy_table, C20_equals_sym,
    C20_equals_numeric, C20_equals_kinds, C20_equals_refl_scalars) -- eval_spec uses those very
    functions. *)
 From Soy Require Import Model.Bytes Model.Num Model.Values Model.Outcome Model.Ast Model.Interp
-  Model.Escape Model.ExprTrans Spec.Expr Generated.Tables
-  Proofs.EvalProofs Proofs.EvalFuncProofs Proofs.EvalMainProofs.
+  Model.Escape Model.Token Model.ExprParser Model.ExprTrans Spec.Expr Spec.ExprSyntax Generated.Tables
+  Proofs.EvalProofs Proofs.EvalFuncProofs Proofs.EvalMainProofs Proofs.ExprParserRules Proofs.ExprParserProofs Proofs.EvalSyntaxProofs.
 Open Scope N_scope.
 
 (* ---- the evaluator ---- *)
@@ -34,7 +38,7 @@ Open Scope N_scope.
    an integer result outside int64, randomInt's value, round with digits <> 0) is outside the
    statement; wf_expr: distinct keys in a map literal, referenced globals defined, "$ij" is EIj. *)
 Theorem C01_eval_impl_spec : forall G ij cf fuel e st,
-  c_ij cf = ij -> wf_expr G e = true -> (height e <= fuel)%nat ->
+  c_ij cf = ij -> ExprTrans.wf_expr G e = true -> (height e <= fuel)%nat ->
   (forall v n', eval_spec G (flatten (ctx st)) ij e (next_id st) = Ok (v, n') ->
      exists st', walk cf fuel (to_node G e) st = (Ok v, st') /\ frame_eq st st' /\ next_id st' = n') /\
   (forall m, eval_spec G (flatten (ctx st)) ij e (next_id st) = Err m ->
@@ -57,11 +61,38 @@ Theorem C01_function_table : forall f,
 Proof. intros f; split; [apply fn_arities_table | apply fn_not_loop]. Qed.
 Print Assumptions C01_function_table.
 
+(* ---- syntax (cited) and the composition ---- *)
+
+(* precedence and associativity with minimal and redundant parentheses: for every well-formed tree
+   e (Spec/ExprSyntax.v), every parenthesis style sty and every following item t that cannot
+   continue an expression, the parser model reads [show sty path e] back as e and stops before t *)
+Theorem C01_parse_show : forall sty path e (t : tok) (rest : list tok),
+  ExprSyntax.wf_expr e -> closer t = true ->
+  exists st' f0, stream st' = t :: rest /\
+    forall f, (f0 <= f)%nat -> parse_expr_top f (show sty path e ++ t :: rest) = POk e st'.
+Proof. exact parse_show_top. Qed.
+Print Assumptions C01_parse_show.
+
+(* tokens -> tree -> compiled tree -> value: for every Spec expression with a concrete syntax, its
+   token sequence (any parenthesis style) parses to to_node [] e, SetNodeGlobals makes it
+   to_node G e, and the walker evaluates that to what the Spec says *)
+Theorem C01_text_to_value : forall G ij cf sty path e (t : tok) (rest : list tok) fuel st,
+  syntax_ok e -> ExprTrans.wf_expr G e = true -> closer t = true ->
+  c_ij cf = ij -> (height e <= fuel)%nat ->
+  exists st' f0, stream st' = t :: rest /\
+    (forall f, (f0 <= f)%nat -> parse_expr_top f (show sty path (to_node [] e) ++ t :: rest) = POk (to_node [] e) st') /\
+    (forall v n', eval_spec G (flatten (ctx st)) ij e (next_id st) = Ok (v, n') ->
+       exists st2, walk cf fuel (set_globals G (to_node [] e)) st = (Ok v, st2) /\ frame_eq st st2 /\ next_id st2 = n') /\
+    (forall m, eval_spec G (flatten (ctx st)) ij e (next_id st) = Err m ->
+       exists msg st2, walk cf fuel (set_globals G (to_node [] e)) st = (Err msg, st2) /\ frame_eq st st2).
+Proof. exact text_to_value. Qed.
+Print Assumptions C01_text_to_value.
+
 (* ---- printing ---- *)
 
 (* printing an expression whose value is undefined is an error and writes nothing *)
 Theorem C01_print_undefined_errors : forall G ij cf, c_ij cf = ij -> forall fuel e p dirs st n',
-  wf_expr G e = true -> (height e <= fuel)%nat ->
+  ExprTrans.wf_expr G e = true -> (height e <= fuel)%nat ->
   eval_spec G (flatten (ctx st)) ij e (next_id st) = Ok (VUndef, n') ->
   exists msg st', walk cf (S fuel) (NPrint p (to_node G e) dirs) st = (Err msg, st') /\
                   out st' = out st /\ bufs st' = bufs st.
@@ -70,7 +101,7 @@ Print Assumptions C01_print_undefined_errors.
 
 (* an expression the language leaves without a value makes the print an error; no text is written for it *)
 Theorem C01_no_text_on_error : forall G ij cf, c_ij cf = ij -> forall fuel e p dirs st m,
-  wf_expr G e = true -> (height e <= fuel)%nat ->
+  ExprTrans.wf_expr G e = true -> (height e <= fuel)%nat ->
   eval_spec G (flatten (ctx st)) ij e (next_id st) = Err m ->
   exists msg st', walk cf (S fuel) (NPrint p (to_node G e) dirs) st = (Err msg, st') /\
                   out st' = out st /\ bufs st' = bufs st.
@@ -80,7 +111,7 @@ Print Assumptions C01_no_text_on_error.
 (* a print without directives of an expression that has a printable value appends exactly the
    value's string image, html-escaped unless the template's autoescape mode is off *)
 Theorem C01_print_renders_spec : forall G ij cf, c_ij cf = ij -> forall fuel e p st v n' s,
-  wf_expr G e = true -> (height e <= fuel)%nat -> c_oblig cf = [] ->
+  ExprTrans.wf_expr G e = true -> (height e <= fuel)%nat -> c_oblig cf = [] ->
   bufs st = [] -> calls_left st = None -> bytes_left st = None ->
   eval_spec G (flatten (ctx st)) ij e (next_id st) = Ok (v, n') -> v <> VUndef ->
   value_string v = Ok s ->
@@ -165,10 +196,16 @@ Definition ex_expr : expr :=
                    (EList [EFloat (FFin 3 (-1)); ERef (b "m") [AKey true (b "k"); AKey true (b "z")]])).
 
 Example C01_nonvacuous_value :
-  wf_expr [] ex_expr = true /\ (height ex_expr <= 6)%nat /\
+  ExprTrans.wf_expr [] ex_expr = true /\ (height ex_expr <= 6)%nat /\
   eval_spec [] ex_env None ex_expr 100 = Ok (VStr (b "xq<7[1.5, null]"), 101) /\
   impl_eval [] ex_env None 6 ex_expr 100 = Ok (VStr (b "xq<7[1.5, null]"), 101).
 Proof. repeat split; vm_compute; reflexivity. Qed.
+
+Example C01_nonvacuous_syntax : syntax_ok ex_expr.
+Proof.
+  cbn [syntax_ok ex_expr allP acc_ok]. unfold float_ok, key_ok.
+  repeat split; try (eexists; split; vm_compute; reflexivity); vm_compute; reflexivity.
+Qed.
 
 (* 1 < 'a' has no value; neither has $l[0].x (a non-collection), nor length(3); $l[5] is undefined *)
 Example C01_nonvacuous_errors :
